@@ -208,11 +208,23 @@ def run_case(case):
 
     def add(kind, msg, mech=None, at=None):
         # a mis-parse that the dialect csv.Sniffer derives from this very file reproduces is named as such
-        if kind in ('headers', 'row_count', 'cell', 'row_keys', 'unexpected_error') and mech != 'leading_space_lost_sniffed_dialect':
+        if kind in ('headers', 'row_count', 'cell', 'row_keys', 'unexpected_error', 'duplicate_headers_accepted') \
+                and mech != 'leading_space_lost_sniffed_dialect':
             try:
                 differs, ah, ar = sniffed_alternative(path, kw.get('delimiter'), delim)
-                if differs and ah is not None and got.ok:
+                if kind == 'duplicate_headers_accepted':
+                    # the sniffed dialect merges / splits the header cells so that no duplicate is left to reject
                     onames = [f['name'] for f in got.dp['resources'][0]['schema']['fields']]
+                    if differs and ah is not None and onames == [h.strip() for h in ah]:
+                        mech = 'sniffed_dialect_misparse'
+                elif differs and ah is not None and got.ok:
+                    onames = [f['name'] for f in got.dp['resources'][0]['schema']['fields']]
+                    if onames != [h.strip() for h in ah]:
+                        # with rows of differing width, tabulator's "auto" preset may take a later row as the header row
+                        for k_ in range(min(10, len(ar))):
+                            if onames == [h.strip() for h in ar[k_]]:
+                                ah, ar = ar[k_], ar[k_ + 1:]
+                                break
                     if kw.get('deduplicate_headers'):
                         same_header = len(onames) == len(ah)
                     else:
